@@ -212,7 +212,12 @@ def run_one(choices, params):
                 pass
             # every request a caller issued went out (a frame left in the send queue after all senders returned never will);
             # the background thread may still be inside a send of its own (answering a callback of the peer): let it finish
-            if conn._send_queue and not sim.block(lambda: not conn._send_queue, 10, "drain-send-queue"):
+            # (a frame another thread has already taken out of the queue but not yet written is in flight, not stranded: wait until
+            #  the queue is empty AND nobody is inside the send path any more)
+            def send_idle():
+                lk = conn._sendlock
+                return not conn._send_queue and not getattr(lk, "held", False) and getattr(lk, "owner", None) is None
+            if not send_idle() and not sim.block(send_idle, 10, "drain-send-queue"):
                 raise core.Violation("request-stranded", "all callers returned and 10 virtual s passed, %d frame(s) are still in the send queue"
                                      % len(conn._send_queue))
             seqs = [e[2] for e in ledger if e[0] == "A>B" and e[1] == "req"]
